@@ -70,7 +70,8 @@ pub struct HrScn {
     pub rbuf: u32,
     /// physical layout of the .shp: 0 = as the writer left it; 1 = records in reverse physical
     /// order with filler between them; 2 = rotated order with filler that looks like a record
-    /// header (the .shx still lists them in logical order)
+    /// header (the .shx still lists them in logical order); 3 = logical order, 4 bytes of slack behind
+    /// every record which the index entry's length field includes
     #[serde(default)]
     pub layout: u8,
 }
@@ -81,6 +82,43 @@ pub fn relayout(f: &ValidFile, layout: u8) -> (Vec<u8>, Vec<u8>) {
         return (f.shp.clone(), f.shx.clone());
     }
     let n = f.bounds.len();
+    if layout == 3 {
+        // records in their order, each followed by 4 bytes of slack that the index entry's length
+        // field counts as part of the record (a slot-based producer): the offsets are right, the
+        // lengths of the index are not the records' own
+        let mut shp = f.shp[..100].to_vec();
+        let mut shx = f.shx[..100].to_vec();
+        for i in 0..n {
+            let rec = &f.shp[f.bounds[i].0..f.bounds[i].1];
+            shx.extend_from_slice(&((shp.len() / 2) as i32).to_be_bytes());
+            shx.extend_from_slice(&(((rec.len() - 8) / 2 + 2) as i32).to_be_bytes());
+            shp.extend_from_slice(rec);
+            shp.extend_from_slice(&[0xEE; 4]);
+        }
+        let words = (shp.len() / 2) as i32;
+        shp[24..28].copy_from_slice(&words.to_be_bytes());
+        return (shp, shx);
+    }
+    if layout == 4 {
+        // the last record first, then the others in their order, nothing between them: consecutive
+        // index entries are physically contiguous (no seek between them), and the last entry points
+        // back to the start of the file
+        let order: Vec<usize> = std::iter::once(n - 1).chain(0..n - 1).collect();
+        let mut shp = f.shp[..100].to_vec();
+        let mut offsets = vec![0usize; n];
+        for &li in &order {
+            offsets[li] = shp.len();
+            shp.extend_from_slice(&f.shp[f.bounds[li].0..f.bounds[li].1]);
+        }
+        let words = (shp.len() / 2) as i32;
+        shp[24..28].copy_from_slice(&words.to_be_bytes());
+        let mut shx = f.shx[..100].to_vec();
+        for i in 0..n {
+            shx.extend_from_slice(&((offsets[i] / 2) as i32).to_be_bytes());
+            shx.extend_from_slice(&(((f.bounds[i].1 - f.bounds[i].0 - 8) / 2) as i32).to_be_bytes());
+        }
+        return (shp, shx);
+    }
     let order: Vec<usize> = if layout == 1 { (0..n).rev().collect() } else { (0..n).map(|i| (i + 1) % n).collect() };
     let mut body: Vec<u8> = Vec::new();
     let mut offsets = vec![0usize; n];
@@ -622,7 +660,7 @@ pub fn alphabet(n: usize) -> Vec<ROp> {
 }
 
 /// The configurations swept: (reader, pairwise different sizes?, layout, number of records).
-const CONFIGS: [(RKind, bool, u8, usize); 18] = [
+const CONFIGS: [(RKind, bool, u8, usize); 20] = [
     (RKind::ShpIndex, true, 0, 3),
     (RKind::ShpNoIndex, true, 0, 3),
     (RKind::Full, true, 0, 3),
@@ -643,6 +681,9 @@ const CONFIGS: [(RKind, bool, u8, usize); 18] = [
     // the complete reader without index: rows must follow the shapes across iterations too
     (RKind::FullNoIndex, true, 0, 3),
     (RKind::FullNoIndex, false, 0, 3),
+    // slots: slack behind every record, counted by the index entry's length field
+    (RKind::ShpIndex, true, 3, 3),
+    (RKind::Full, false, 3, 3),
 ];
 const MAX_ALPHABET: usize = 21;
 
